@@ -155,7 +155,8 @@ def ident(w):
 
 def count_const(w, cw):
     """shift/rotate count constants: classes 0, 1, 2..w-1, w, >w"""
-    return st.sampled_from(sorted(set([0, 1, 2, 3, 4, 7, 8, w - 1, w, w + 1, 31, 32]))).filter(lambda v: 0 <= v < (1 << cw)).map(lambda v: ["int", cw, v])
+    wide = [1 << w, (1 << w) + 1, (1 << w) | 0x80 >> (8 - min(w, 8)), (1 << cw) - 1] if cw > w else []      # counts that only a wider count type can hold (seed C06-r8-3)
+    return st.sampled_from(sorted(set([0, 1, 2, 3, 4, 7, 8, w - 1, w, w + 1, 31, 32] + wide))).filter(lambda v: 0 <= v < (1 << cw)).map(lambda v: ["int", cw, v])
 
 
 @st.composite
@@ -206,7 +207,7 @@ def _expr(draw, w, depth, mem, ops_extra, pool):
         return ["op", "-", [draw(expr(w, d, mem)), draw(expr(w, d, mem))]]
     if kind == "shift" and w > 1:
         op = draw(st.sampled_from(["<<", ">>", "a>>"]))
-        cw = draw(st.sampled_from([w, 8])) if w >= 8 else w
+        cw = draw(st.sampled_from([w, w, 8, 8, 32 if w < 32 else 64])) if w >= 8 else w
         cnt = draw(st.one_of(count_const(w, cw), expr(cw, min(d, 1), mem)))
         return ["op", op, [draw(expr(w, d, mem)), cnt]]
     if kind == "rot" and w in (8, 16, 32):
